@@ -81,7 +81,7 @@ def policy(ctxs, groups_of=None):
         xml.append('  ' + head + '\n' + '\n'.join(body) + '\n  </policy>')
         js.append({'c': c, 'id': ident or 0, 'rules': [to_json(r) for r in rules]})
     rec = {'kind': 'rules', 'prune': False, 'ctx': js,
-           'groupsOf': [{'uid': u, 'gids': g} for u, g in (groups_of or {}).items()]}
+           'groupsOf': [{'uid': int(u), 'gids': sorted(g)} for u, g in (groups_of or {}).items()]}
     return '\n'.join(xml), rec
 
 
@@ -163,7 +163,7 @@ def random_ctxs(rng, uids=(0, 1000, 65534)):
     ctxs.append(['default', 0, base + [random_rule(rng) for _ in range(rng.randint(0, 4))]])
     for _ in range(rng.randint(0, 3)):
         c = rng.choice(['user', 'user', 'group', 'default', 'console_f', 'mandatory'])
-        ident = rng.choice(uids) if c in ('user', 'group') else 0
+        ident = rng.choice(uids) if c == 'user' else rng.choice([0, 1000, 2, 2, 3, 3, 65534]) if c == 'group' else 0
         ctxs.append([c, ident, [random_rule(rng) for _ in range(rng.randint(1, 3))]])
     if rng.random() < 0.7:
         ctxs.append(['mandatory', 0, [rule('send', True, peer='org.freedesktop.DBus'), rule('recv', True, peer='org.freedesktop.DBus')]])
@@ -177,4 +177,8 @@ def random_ctxs(rng, uids=(0, 1000, 65534)):
     return ctxs
 
 
-GROUPS_OF = {0: [0], 1000: [1000], 65534: [65534]}
+# the groups of the three users, ascending (what the bus reads from the socket: supplementary groups plus the effective gid, sorted)
+# (only groups that exist in the group database can be named in the configuration: a section for an unknown group is
+# dropped with a warning -- 2 = bin, 3 = sys on every Debian-like system)
+GROUPS_OF = {0: [0], 1000: [2, 3, 1000], 65534: [2, 65534]}
+ALL_GIDS = [0, 2, 3, 1000, 65534]
